@@ -126,6 +126,28 @@ pub struct Swarm {
     /// a logger without a (fine) clock: every storage header of the run carries the same
     /// timestamp and ECU id, so that consecutive records start with 16 identical bytes
     pub fixed_storage_header: Option<(u32, u32, String)>,
+    /// message counter of consecutive records: 0 random, 1 incrementing (with wrap-around),
+    /// 2 constant
+    pub counter_mode: u8,
+    /// header timestamp of consecutive records: 0 random, 1 non-decreasing in small steps (equal
+    /// neighbours included), 2 constant, 3 decreasing
+    pub time_mode: u8,
+    /// share of records that repeat the previous record byte for byte
+    pub dup_pct: usize,
+    /// application ids in ascending order over the run
+    pub sorted_ids: bool,
+    /// percent of numeric / textual draws taken from the source dictionary (dict.rs)
+    pub dict_pct: usize,
+    pub seq: std::rc::Rc<SeqState>,
+}
+
+/// what a record depends on from the records before it (sequence modes)
+#[derive(Debug, Default)]
+pub struct SeqState {
+    pub counter: std::cell::Cell<u8>,
+    pub ts: std::cell::Cell<u32>,
+    pub id: std::cell::Cell<u32>,
+    pub last: std::cell::RefCell<Option<Rec>>,
 }
 
 impl Swarm {
@@ -162,6 +184,17 @@ impl Swarm {
             multibyte_pct: *r.pick(&[0, 10, 50]),
             odd_msgtype_pct: *r.pick(&[0, 10, 40]),
             embed_magic_pct: *r.pick(&[0, 0, 0, 5, 30, 100]),
+            counter_mode: *r.pick(&[0u8, 0, 1, 1, 2]),
+            time_mode: *r.pick(&[0u8, 0, 0, 1, 1, 2, 3]),
+            dup_pct: *r.pick(&[0usize, 0, 0, 5, 30]),
+            sorted_ids: r.chance(1, 6),
+            dict_pct: *r.pick(&[0usize, 5, 5, 15, 40]),
+            seq: {
+                let s = SeqState::default();
+                s.counter.set(*r.pick(&[0u8, 1, 250, 253, 255, 128]));
+                s.ts.set(*r.pick(&[0u32, 1, 0xffff_fff0, 0x7fff_fffe, 1_000_000]));
+                std::rc::Rc::new(s)
+            },
             fixed_storage_header: if r.chance(1, 4) {
                 let secs = *r.pick(&[0u32, 0, 1, 0xffff_ffff, 1_700_000_000]);
                 Some((secs, *r.pick(&[0u32, 0, 999_999, 500_000]), if r.bool() { "ECU".to_string() } else { gen_id(r, 4) }))
@@ -190,6 +223,14 @@ pub fn gen_id(r: &mut Rng, alphabet: usize) -> String {
     if r.chance(1, 20) {
         return (*r.pick(SPECIAL_IDS)).to_string();
     }
+    if r.chance(1, 25) {
+        // a string literal of the source that fits an id field
+        if let Some(s) = crate::dict::string_upto(r, 4) {
+            if !s.contains('\0') {
+                return s.to_string();
+            }
+        }
+    }
     // 0..=4 bytes, no NUL; small alphabets make ids collide
     let len = *r.pick(&[0usize, 1, 2, 3, 4, 4, 4, 3]);
     let mut s = String::new();
@@ -214,6 +255,13 @@ fn gen_text(r: &mut Rng, max_bytes: usize, multibyte_pct: usize) -> String {
         if c.len() <= max_bytes {
             s.push_str(c);
         }
+    } else if r.chance(1, 12) {
+        // a string literal of the source (keywords, separators, format fragments)
+        if let Some(c) = crate::dict::string_upto(r, max_bytes) {
+            if !c.contains('\0') {
+                s.push_str(c);
+            }
+        }
     }
     while s.len() < max_bytes {
         if r.chance(multibyte_pct, 100) {
@@ -229,9 +277,32 @@ fn gen_text(r: &mut Rng, max_bytes: usize, multibyte_pct: usize) -> String {
     s
 }
 
+/// a 32-bit header field: mostly random, sometimes a boundary value or a literal of the source
+fn field_u32(r: &mut Rng, sw: &Swarm) -> u32 {
+    if r.chance(sw.dict_pct, 100) {
+        return crate::dict::num_below(r, u32::MAX as u64).unwrap_or(0) as u32;
+    }
+    match r.below(10) {
+        0 => *r.pick(&[0u32, 1, u32::MAX, u32::MAX - 1, 0x7fff_ffff, 0x8000_0000, 0x0100_0000, 0x0001_0000, 0x444c_5401, 0x0154_4c44]),
+        _ => r.u32(),
+    }
+}
+
 /// `n` payload bytes; in swarms that ask for it, with the storage-header magic somewhere inside
 fn payload_bytes(r: &mut Rng, sw: &Swarm, n: usize) -> Vec<u8> {
     let mut b = r.bytes(n);
+    if n >= 1 && r.chance(sw.dict_pct, 100) {
+        // a literal of the source somewhere in the payload: a number in either byte order, or a string
+        let lit: Vec<u8> = match r.below(4) {
+            0 => crate::dict::string(r).as_bytes().to_vec(),
+            1 => (crate::dict::num(r) as u32).to_le_bytes().to_vec(),
+            2 => (crate::dict::num(r) as u32).to_be_bytes().to_vec(),
+            _ => vec![crate::dict::num(r) as u8],
+        };
+        let k = lit.len().min(n);
+        let at = if r.bool() { 0 } else { r.below(n - k + 1) };
+        b[at..at + k].copy_from_slice(&lit[..k]);
+    }
     if n >= 4 && r.chance(sw.embed_magic_pct, 100) {
         let at = match r.below(4) {
             0 => 0,
@@ -252,6 +323,12 @@ fn bulk_size(r: &mut Rng, room: usize) -> usize {
 }
 
 fn size_class(r: &mut Rng, sw: &Swarm, budget: usize) -> usize {
+    if r.chance(sw.dict_pct, 300) {
+        // a size that is a literal of the source (or next to one)
+        if let Some(n) = crate::dict::num_below(r, budget as u64) {
+            return n as usize;
+        }
+    }
     let n = match r.weighted(&sw.size_w) {
         0 => r.below(9),
         1 => r.below(65),
@@ -328,7 +405,8 @@ const LENS: [TypeLength; 5] = [
 ];
 
 fn interesting_u64(r: &mut Rng) -> u64 {
-    match r.below(6) {
+    match r.below(7) {
+        6 => crate::dict::num(r),
         0 => 0,
         1 => u64::MAX,
         2 => 1u64 << r.below(64),
@@ -560,8 +638,25 @@ pub fn gen_message(r: &mut Rng, sw: &Swarm) -> (Message, &'static str) {
     let kind = r.weighted(&sw.kind_w);
     let big = r.chance(sw.big_endian_pct, 100);
     let ecu_id = if r.chance(sw.opt_field_pct[0], 100) { Some(gen_id(r, sw.id_alphabet)) } else { None };
-    let session_id = if r.chance(sw.opt_field_pct[1], 100) { Some(r.u32()) } else { None };
-    let timestamp = if r.chance(sw.opt_field_pct[2], 100) { Some(r.u32()) } else { None };
+    let session_id = if r.chance(sw.opt_field_pct[1], 100) { Some(field_u32(r, sw)) } else { None };
+    let timestamp = if r.chance(sw.opt_field_pct[2], 100) {
+        Some(match sw.time_mode {
+            1 => {
+                let t = sw.seq.ts.get().wrapping_add(*r.pick(&[0u32, 0, 1, 1, 10, 10_000]));
+                sw.seq.ts.set(t);
+                t
+            }
+            2 => sw.seq.ts.get(),
+            3 => {
+                let t = sw.seq.ts.get().wrapping_sub(1 + r.below(3) as u32);
+                sw.seq.ts.set(t);
+                t
+            }
+            _ => field_u32(r, sw),
+        })
+    } else {
+        None
+    };
     let has_ext = kind != 2;
     let hdr_len = 4
         + ecu_id.as_ref().map_or(0, |_| 4)
@@ -594,7 +689,7 @@ pub fn gen_message(r: &mut Rng, sw: &Swarm) -> (Message, &'static str) {
         }
         1 | 2 => {
             let n = budget.saturating_sub(4);
-            let id = if r.bool() { r.below(32) as u32 } else { r.u32() };
+            let id = if r.bool() { r.below(32) as u32 } else { field_u32(r, sw) };
             let mut mt = gen_message_type(r, sw.odd_msgtype_pct);
             if let MessageType::Control(_) = mt {
                 mt = MessageType::Log(LogLevel::Warn);
@@ -667,7 +762,15 @@ pub fn gen_message(r: &mut Rng, sw: &Swarm) -> (Message, &'static str) {
             version: r.below(8) as u8,
             endianness: if big { Endianness::Big } else { Endianness::Little },
             has_extended_header: has_ext,
-            message_counter: r.u8(),
+            message_counter: match sw.counter_mode {
+                1 => {
+                    let c = sw.seq.counter.get();
+                    sw.seq.counter.set(c.wrapping_add(1));
+                    c
+                }
+                2 => sw.seq.counter.get(),
+                _ => r.u8(),
+            },
             ecu_id,
             session_id,
             timestamp,
@@ -677,7 +780,13 @@ pub fn gen_message(r: &mut Rng, sw: &Swarm) -> (Message, &'static str) {
             verbose,
             argument_count: noar,
             message_type,
-            application_id: gen_id(r, sw.id_alphabet),
+            application_id: if sw.sorted_ids {
+                let k = sw.seq.id.get();
+                sw.seq.id.set(k + r.below(3) as u32);
+                format!("{:04}", k % 10_000)
+            } else {
+                gen_id(r, sw.id_alphabet)
+            },
             context_id: gen_id(r, sw.id_alphabet),
         }),
         payload,
@@ -718,8 +827,16 @@ pub fn record_of(m: &Message, kind: &'static str) -> Rec {
 }
 
 pub fn gen_record(r: &mut Rng, sw: &Swarm) -> Rec {
+    if r.chance(sw.dup_pct, 100) {
+        // the same record once more, byte for byte (a retransmission, a logger that repeats itself)
+        if let Some(prev) = sw.seq.last.borrow().as_ref() {
+            return prev.clone();
+        }
+    }
     let (m, k) = gen_message(r, sw);
-    record_of(&m, k)
+    let rec = record_of(&m, k);
+    *sw.seq.last.borrow_mut() = Some(rec.clone());
+    rec
 }
 
 // ---------------------------------------------------------------------------------------------
